@@ -7,4 +7,5 @@ export CARGO_TARGET_DIR="$(cd .. && pwd)/.target"
 [ -f Cargo.lock ] || cp /repo/Cargo.lock Cargo.lock
 cargo build --offline --profile chk
 cargo build --offline --release
+CARGO_TARGET_DIR="$(cd .. && pwd)/.target-notls" cargo build --offline --profile chk --no-default-features
 "$CARGO_TARGET_DIR/chk/vmon" selfcheck
